@@ -92,6 +92,42 @@ func TestVerifEndpoints(t *testing.T) {
 		time.Sleep(5 * time.Millisecond)
 	}
 	s.mgr.DelPcapOverIPEndpoint(ln.Addr().String())
+	// every kind of state the API can write, written right after a background job reported completion: whatever a job
+	// goroutine still touches after it has handed over its completion closure is unordered with these writes
+	w2 := vWorld{Pieces: map[int][]int{}, Port: map[int]int{}}
+	for k := 10; k < 22; k++ {
+		w2.Caps = append(w2.Caps, k)
+		w2.Conns = append(w2.Conns, k)
+		w2.Pieces[k] = []int{k}
+		w2.Port[k] = 80 + k%2
+	}
+	for k := 10; k < 22; k++ {
+		cn, err := vWriteCapture(s.dirs["pcap"], &w2, k)
+		if err != nil {
+			t.Fatal(err)
+		}
+		before := s.mgr.Status().PcapCount
+		s.mgr.ImportPcaps([]string{cn})
+		for d := time.Now().Add(10 * time.Second); time.Now().Before(d); {
+			if st := s.mgr.Status(); st.ImportJobCount == 0 && st.PcapCount > before && !st.TaggingJobRunning {
+				break
+			}
+		}
+		url := hook.URL + "/r" + strings.Repeat("x", k-9)
+		s.mgr.AddPcapProcessorWebhook(url)
+		s.mgr.DelPcapProcessorWebhook(url)
+		s.mgr.SetConfig(Config{AutoInsertLimitToQuery: k%2 == 0})
+		s.mgr.AddPcapOverIPEndpoint("127.0.0.1:1")
+		s.mgr.DelPcapOverIPEndpoint("127.0.0.1:1")
+		s.mgr.AddTag("tag/r", "", "sport:81")
+		s.mgr.UpdateTag("tag/r", UpdateTagOperationUpdateColor("#123456"))
+		s.mgr.UpdateTag("tag/r", UpdateTagOperationUpdateName("tag/s"))
+		s.mgr.AddTag("mark/r", "", "id:0")
+		s.mgr.UpdateTag("mark/r", UpdateTagOperationMarkAddStream([]uint64{1}))
+		s.mgr.DelTag("mark/r")
+		s.mgr.DelTag("tag/s")
+		s.mgr.DelTag("tag/r")
+	}
 	closer()
 	s.close()
 }
